@@ -22,9 +22,9 @@ func receiverStateField(v ssa.Value, recv ssa.Value, depth int) string {
 	for d := 0; d < depth && v != nil; d++ {
 		switch x := v.(type) {
 		case *ssa.FieldAddr:
-			_, f, _ := fieldOf(x)
-			if attributionFields[f.Name()] && derivesFromRecv(x.X, recv, 4) {
-				return f.Name()
+			o, f, _ := fieldOf(x)
+			if attributionFields[cfield(o, f)] && derivesFromRecv(x.X, recv, 4) {
+				return cfield(o, f)
 			}
 			v = x.X
 		case *ssa.UnOp:
@@ -102,7 +102,7 @@ func (m *mutSummary) mayMutate(f *ssa.Function, depth int) bool {
 		return v
 	}
 	m.memo[f] = false
-	if depth == 0 || f.Blocks == nil || len(f.Params) == 0 || f.Signature.Recv() == nil {
+	if depth == 0 || f.Blocks == nil || !ownsRegistryState(f) {
 		return false
 	}
 	res := false
@@ -121,7 +121,7 @@ func (m *mutSummary) mayMutate(f *ssa.Function, depth int) bool {
 				res = true
 			}
 			if cc := getCall(in); cc != nil {
-				if sc := cc.StaticCallee(); sc != nil && m.c.inRepo(sc) && strings.Contains(fnPkgPath(sc), pkgRegistry) && sc.Signature.Recv() != nil {
+				if sc := cc.StaticCallee(); sc != nil && m.c.inRepo(sc) && strings.Contains(fnPkgPath(sc), pkgRegistry) && ownsRegistryState(sc) {
 					if m.mayMutate(sc, depth-1) {
 						res = true
 					}
@@ -143,7 +143,7 @@ func checkC10(c *Ctx, r *Report) {
 	// ---------- R1 ----------
 	r.Rule("C10-R1", "in every update operation of the model registries (methods whose only result is an error), no `return <non-nil error>` is reachable from an instruction that mutates attribution state (directly or through a same-package method); a return that merely forwards the error of the mutating callee is that callee's obligation", 5)
 	for _, f := range c.Funcs {
-		if f.Parent() != nil || f.Signature.Recv() == nil || !strings.HasSuffix(fnPkgPath(f), pkgRegistry) {
+		if f.Parent() != nil || !ownsRegistryState(f) || !strings.HasSuffix(fnPkgPath(f), pkgRegistry) {
 			continue
 		}
 		res := f.Signature.Results()
@@ -199,7 +199,7 @@ func checkC10(c *Ctx, r *Report) {
 	r.Rule("C10-R2", "every replacement or removal of an endpoint's listing (Store/Delete on endpointModels) is preceded on all paths by the index-removal helper (the method that deletes the endpoint from modelToEndpoints for every model of the old listing): the model→endpoints index never keeps entries of a replaced listing", 3)
 	var idxRemovers []*ssa.Function
 	for _, f := range c.Funcs {
-		if f.Parent() != nil || f.Signature.Recv() == nil || !strings.HasSuffix(fnPkgPath(f), pkgRegistry) {
+		if f.Parent() != nil || !ownsRegistryState(f) || !strings.HasSuffix(fnPkgPath(f), pkgRegistry) {
 			continue
 		}
 		recv := ssa.Value(f.Params[0])
@@ -241,7 +241,7 @@ func checkC10(c *Ctx, r *Report) {
 		return false
 	}
 	for _, f := range c.Funcs {
-		if f.Parent() != nil || f.Signature.Recv() == nil || !strings.HasSuffix(fnPkgPath(f), pkgRegistry) {
+		if f.Parent() != nil || !ownsRegistryState(f) || !strings.HasSuffix(fnPkgPath(f), pkgRegistry) {
 			continue
 		}
 		recv := ssa.Value(f.Params[0])
@@ -759,4 +759,26 @@ func derivesFromValue(v, src ssa.Value, depth int) bool {
 		return derivesFromValue(x.X, src, depth-1)
 	}
 	return false
+}
+
+
+// ownsRegistryState: f operates on a registry value handed to it as its receiver or — for a plain function that takes
+// the registry as its first argument — as that argument (methods and such functions are interchangeable spellings).
+func ownsRegistryState(f *ssa.Function) bool {
+	if f == nil || len(f.Params) == 0 {
+		return false
+	}
+	if f.Signature.Recv() != nil {
+		return true
+	}
+	pt, ok := f.Params[0].Type().(*types.Pointer)
+	if !ok {
+		return false
+	}
+	n, ok := types.Unalias(pt.Elem()).(*types.Named)
+	if !ok || n.Obj().Pkg() == nil || !strings.HasSuffix(n.Obj().Pkg().Path(), pkgRegistry) {
+		return false
+	}
+	_, isStruct := n.Underlying().(*types.Struct)
+	return isStruct
 }
